@@ -147,3 +147,192 @@ class FormatPermSymmetry(Contract):
             parts.append(Sym(cat("+ " if factor == 1 else "- ", *[p.f["_str"] for p in perms])))
         spec = cat("(", joined(" ", parts), ")")
         return [("text-is-one-plus-signed-permutation-operators", as_term(result) == spec)]
+
+
+# --- generate_code: assembly of the program text ----------------------------------------------
+# Callees are opaque (assumed contracts returning arbitrary strings / contraction lists);
+# obligations: the permutational symmetry is exploited with the request as given, the
+# contraction scheme of every term is requested with the target indices / target spin of the
+# request (bra-ket separator removed) and the given limits, every inner contraction is
+# formatted before it is used, exactly one outer contraction, and the text is
+#   header + "Apply <perm> to:\n" + one line "<pref> * <outer>  <comment>" (or "<pref>") per
+#   term, blocks separated by an empty line.
+from pyvc.values import PDict, Inst
+from pyvc.vc import RaiseEx
+
+HEADER = "The scaling comment is given as: [comp_scaling] / [mem_scaling]\n"
+_REQ = {}
+
+
+def _req(vc):
+    return vc.ghost["_gc"]
+
+
+def _same_arg(vc, got, want):
+    if want is None or got is None:
+        return got is want
+    if isinstance(want, (bool, int)) or isinstance(got, (bool, int)):
+        return z3.BoolVal(True) if got is want else zeq(got, want)
+    return as_term(got) == as_term(want)
+
+
+class _Opaque(Contract):
+    props = []
+    assumed = True
+
+
+@register
+class _ExploitPermSym(_Opaque):
+    key = "adcgen.sort_expr:exploit_perm_sym"
+    note = "C10: lossless decomposition {permutation operators: part}; here: called with the request as given"
+
+    def pre(self, vc, a):
+        r = _req(vc)
+        return [("symmetry-is-exploited-for-the-requested-result-tensor",
+                 zand(a["expr"] is r["expr"], _same_arg(vc, a["target_indices"], r["target_indices"]),
+                      _same_arg(vc, a.get("target_spin"), r["target_spin"]),
+                      _same_arg(vc, a.get("bra_ket_sym", 0), r["bra_ket_sym"]),
+                      _same_arg(vc, a.get("antisymmetric_result_tensor", True), r["antisym"])))]
+
+    def fresh_result(self, vc, a):
+        return _req(vc)["parts"]
+
+
+class _SchemeCallee(_Opaque):
+    optimised = True
+
+    def pre(self, vc, a):
+        r = _req(vc)
+        term_ok = any(a["term"] is t for t in r["all_terms"])
+        out = [("scheme-for-a-term-of-the-expression", term_ok),
+               ("scheme-with-the-requested-target-indices-without-separator",
+                as_term(a["target_indices"]) == as_term(r["target_plain"])),
+               ("scheme-with-the-requested-target-spin",
+                _same_arg(vc, a.get("target_spin"), r["spin_plain"]))]
+        if self.optimised:
+            out.append(("scheme-with-the-requested-limits",
+                        zand(_same_arg(vc, a.get("max_itmd_dim"), r["max_itmd_dim"]),
+                             _same_arg(vc, a.get("max_n_simultaneous_contracted"), r["max_n"]))))
+        return out
+
+    def fresh_result(self, vc, a):
+        return a["term"].f["scheme"]
+
+
+@register
+class _OptimizeCallee(_SchemeCallee):
+    key = "adcgen.generate_code.optimize_contractions:optimize_contractions"
+    note = "C16 (bounded stand-in schemes.execute)"
+
+
+@register
+class _UnoptimizedCallee(_SchemeCallee):
+    key = "adcgen.generate_code.optimize_contractions:unoptimized_contraction"
+    note = "C16 (bounded stand-in schemes.execute)"
+    optimised = False
+
+
+@register
+class _FormatPrefactor(_Opaque):
+    key = GC + "format_prefactor"
+    note = "prefactor text of the term (bounded stand-in generated_code.execute)"
+
+    def apply(self, vc, a):
+        return a["term"].f["pref_text"]
+
+
+@register
+class _FormatScaling(_Opaque):
+    key = GC + "format_scaling_comment"
+    note = "comment text"
+
+    def apply(self, vc, a):
+        return a["term"].f["comment_text"]
+
+
+@register
+class _FormatContraction(_Opaque):
+    key = GC + "format_contraction"
+    note = "text of one contraction; inner contractions are taken from the cache"
+
+    def pre(self, vc, a):
+        c = a["contraction"]
+        cache = a["contraction_cache"]
+        keys = set(cache.d.keys()) if isinstance(cache, PDict) else set()
+        need = [n for n in c.f["names"] if n.startswith("contraction_")]
+        return [("every-inner-contraction-is-formatted-before-it-is-used", all(n in keys for n in need)),
+                ("backend-is-passed-on", a["backend"] == _req(vc)["backend"])]
+
+    def fresh_result(self, vc, a):
+        return a["contraction"].f["text"]
+
+
+def _mk_term(vc, n, kind):
+    """kind: 0 prefactor only, 1 one contraction, 2 inner + outer, 3 two inner + outer"""
+    idx = () if kind == 0 else (Struct("IndexTok", spin=""),)
+    scheme = []
+    for k in range(max(kind, 0)):
+        last = k == kind - 1
+        names = ("T_a", "T_b") if k == 0 else (f"contraction_{n}_{k - 1}", "T_c")
+        scheme.append(Struct("ContractionV", contraction_name=f"contraction_{n}_{k}", names=names,
+                             text=Sym(z3.String(f"contr_text_{n}_{k}")), last=last))
+    return Struct("CodeTerm", idx=idx, scheme=PList(scheme), pref_text=Sym(z3.String(f"pref_{n}")),
+                  comment_text=Sym(z3.String(f"comment_{n}")))
+
+
+@register
+class GenerateCode(Contract):
+    key = GC + "generate_code"
+    props = ["C17"]
+    SHAPES = [([1],), ([0],), ([2],), ([3],), ([1, 0],), ([2, 1],), ([1], [2]), ([0], [1, 1])]
+    split_first_choice = len(SHAPES)
+
+    def setup(self, vc):
+        shape = self.SHAPES[vc.choose(len(self.SHAPES), "shape")]
+        mode = vc.choose(4, "options")
+        comma, spin, optimise = mode in (1, 3), mode in (2, 3), mode != 2
+        expr = Struct("ExprArgV")
+        C.STRUCT_ISINSTANCE["ExprArgV"] = lambda ip, v, cls: True
+        parts, all_terms, n = {}, [], 0
+        for k, kinds in enumerate(shape):
+            terms = []
+            for kd in kinds:
+                terms.append(_mk_term(vc, n, kd))
+                n += 1
+            all_terms += terms
+            parts[Struct("PermSymTok", text=Sym(z3.String(f"perm_text_{k}")))] = \
+                Struct("SubExprV", terms=tuple(terms))
+        C.STRUCT_METHODS[("PartsV", "items")] = lambda ip, o, a_, k_: PList(list(o.f["parts"].items()))
+        tgt = "ia,jb" if comma else "iajb"
+        tspin = ("aa,bb" if comma else "aabb") if spin else None
+        vc.ghost["_gc"] = {"expr": expr, "target_indices": tgt, "target_spin": tspin, "bra_ket_sym": 1,
+                           "antisym": False, "parts": Struct("PartsV", parts=parts),
+                           "all_terms": all_terms, "target_plain": "iajb",
+                           "spin_plain": "aabb" if spin else None, "max_itmd_dim": 3, "max_n": 2,
+                           "backend": "einsum", "optimise": optimise}
+        return {"expr": expr, "target_indices": tgt, "target_spin": tspin, "bra_ket_sym": 1,
+                "antisymmetric_result_tensor": False, "backend": "einsum", "max_itmd_dim": 3,
+                "max_n_simultaneous_contracted": 2, "optimize_contraction_scheme": optimise}
+
+    def post(self, vc, a, result):
+        r = _req(vc)
+        blocks = []
+        for ps, sub in r["parts"].f["parts"].items():
+            lines = []
+            for t in sub.f["terms"]:
+                if not t.f["idx"]:
+                    lines.append(t.f["pref_text"])
+                else:
+                    outer = t.f["scheme"].items[-1]
+                    lines.append(Sym(cat(t.f["pref_text"], " * ", outer.f["text"], "  ", t.f["comment_text"])))
+            blocks.append(Sym(cat(HEADER, "Apply ", ps.f["text"], " to:\n", joined("\n", lines))))
+        return [("text-is-header-permutation-operators-and-one-line-per-term",
+                 as_term(result) == joined("\n\n", blocks))]
+
+
+def _perm_callers_view(self, vc, a):
+    """callers' view of format_perm_symmetry: the text of the operators"""
+    return a["perm_symmetry"].f["text"]
+
+
+FormatPermSymmetry.apply = _perm_callers_view
